@@ -346,6 +346,8 @@ def check(prog, run):
     if "self._errors.append(err)" not in txt or "err.path = path if path is not None else err.path" not in txt:
         run.report(r, "%s:ResolutionContext.add_error:shape" % WRAP, ae.where(), "add_error does not set the path and append the error")
 
+    check_memo_keys(prog, run)
+
     # ---- H1 request isolation
     r = run.rule("H1", "no request-scoped state outlives a request: executor caches are instance attributes created in __init__, "
                        "no class-level mutable attributes on executor classes, and mutable default arguments / module tables "
@@ -399,3 +401,76 @@ def _written(f, name):
                 and n.func.attr in ("append", "add", "update", "setdefault", "pop", "extend", "insert", "clear", "remove"):
             return True
     return False
+
+
+def memo_sites(cls):
+    """(method, cache attr, key expr, compute expr) for `try: return self.C[K] / except KeyError: ... self.C[K] = <compute>`."""
+    out = []
+    seen = set()
+    for name, m in cls.methods.items():
+        if id(m) in seen:
+            continue
+        seen.add(id(m))
+        for n in own_nodes(m.node):
+            if not isinstance(n, ast.Try) or len(n.handlers) != 1 or n.handlers[0].type is None or "KeyError" not in ast.unparse(n.handlers[0].type):
+                continue
+            if not (len(n.body) == 1 and isinstance(n.body[0], ast.Return) and isinstance(n.body[0].value, ast.Subscript)):
+                continue
+            sub = n.body[0].value
+            base = sub.value
+            if isinstance(base, ast.Name):
+                # local alias: cache = self._x
+                defs = [x for x in own_nodes(m.node) if isinstance(x, ast.Assign) and isinstance(x.targets[0], ast.Name) and x.targets[0].id == base.id]
+                if len(defs) == 1:
+                    base = defs[0].value
+            if not (isinstance(base, ast.Attribute) and isinstance(base.value, ast.Name) and base.value.id == "self"):
+                continue
+            computes = []
+            for x in ast.walk(ast.Module(body=n.handlers[0].body, type_ignores=[])):
+                if isinstance(x, ast.Assign):
+                    for t in x.targets:
+                        if isinstance(t, ast.Subscript) and ast.unparse(t.slice) == ast.unparse(sub.slice):
+                            computes.append((x, n.handlers[0]))
+            out.append((m, base.attr, sub.slice, n.handlers[0]))
+    return out
+
+
+def check_memo_keys(prog, run):
+    r = run.rule("H2", "every per-request memo table (try: return self.C[key] / except KeyError: compute and store) is keyed by "
+                       "every parameter its computation depends on: a parameter used in the miss branch but absent from the key "
+                       "makes two different requests share one entry", 4)
+    for modname, cname in ((WRAP, "ResolutionContext"), (EXE, "Executor")):
+        cls = prog.get_class(modname, cname)
+        for m, cache, key, handler in memo_sites(cls):
+            if m.cls is not cls:
+                continue
+            run.looked_at(m)
+            params = set(m.params[1:])
+            # local definitions: name -> names it depends on
+            deps = {}
+            for x in own_nodes(m.node):
+                if isinstance(x, ast.Assign) and len(x.targets) == 1 and isinstance(x.targets[0], ast.Name):
+                    deps.setdefault(x.targets[0].id, set()).update(y.id for y in ast.walk(x.value) if isinstance(y, ast.Name))
+
+            def closure(names):
+                out, stack = set(), list(names)
+                while stack:
+                    v = stack.pop()
+                    if v in out:
+                        continue
+                    out.add(v)
+                    stack.extend(deps.get(v, ()))
+                return out
+            key_names = closure({y.id for y in ast.walk(key) if isinstance(y, ast.Name)}) & params
+            used = set()
+            for st in handler.body:
+                for y in ast.walk(st):
+                    if isinstance(y, ast.Name) and isinstance(y.ctx, ast.Load):
+                        used.add(y.id)
+            used_params = closure(used) & params
+            r.instance("%s.%s: cache %s keyed by %s; miss branch uses %s" % (cname, m.name, cache, sorted(key_names), sorted(used_params)))
+            for pmiss in sorted(used_params - key_names):
+                run.report(r, "%s:%s.%s:key-omits(%s)" % (modname, cname, m.name, pmiss), m.where(),
+                           "%s caches in self.%s under a key built from %s, but the cached value is computed from %s too: calls that "
+                           "differ only in %s (e.g. the same field node executed against two implementing object types) share one entry"
+                           % (m.name, cache, sorted(key_names), pmiss, pmiss))
